@@ -395,6 +395,7 @@ def explore8(cfg: dict) -> dict:
             res['candidates'].append({'symbolic': r['bad'] + [f'cell {k}[{j}]' for k, j, _, _ in r['cell_bad']],
                                       'inputs': inp, 'replay': {'bad': cb, 'impl': ca[:2], 'ref': cexp['outcome']}})
     res['exhausted'] = ctx.exhausted
+    res['smt_samples'] = list(ctx.samples)
     res['stats'] = ctx.stats.as_dict()
     res['assumptions'] = list(ctx.assumptions)
     res['shim_calls'] = dict(_LSHIM.calls)
@@ -480,6 +481,7 @@ def explore_construct(cfg: dict) -> dict:
             rep = _replay_construct(cfg, vals, lens)
             res['candidates'].append({'symbolic': r['bad'], 'inputs': vals, 'replay': rep})
     res['exhausted'] = ctx.exhausted
+    res['smt_samples'] = list(ctx.samples)
     res['stats'] = ctx.stats.as_dict()
     res['assumptions'] = list(ctx.assumptions)
     res['shim_calls'] = {}
